@@ -186,7 +186,7 @@ class Ref:
             if a == 0:
                 if b <= 0:
                     raise BasicError("zero to a non-positive power")
-                return 0.0
+                return a          # the engine leaves a zero base as it is, sign included: (-0)^3 prints as -0.000000e+00 (the sign of a zero is not a value the statement fixes)
             if b != float(int(b)):
                 raise BasicError("negative base, fractional power")
             v = math.exp(b * math.log(-a))
